@@ -239,16 +239,55 @@ PIPELINES.append(Pipeline('U4_cleanup_helper_moving_in_buffer', units=[U_mov], p
                           replay=('c15_idset', lambda cex, o: ['stash']),
                           note='the index fix-up during compaction rewrites exactly the first entry (from the cursor) that holds the moved item\'s old offset'))
 
+# ---- relation maps: flat_map::get on the sorted vector - exactly the entries of the key, for keys wider than the internal key type too -------------
+RMAP = 'include/osmium/index/relations_map.hpp'
+FM_PRELUDE = '''
+typedef uint64_t key_type; typedef uint64_t value_type; typedef uint32_t TKeyInternal; typedef uint32_t TValueInternal;   /* the "small" index: 64-bit ids looked up in 32-bit entries */
+#define VERIF_TKEYINTERNAL_MAX UINT32_MAX
+struct kv_pair { TKeyInternal key; TValueInternal value; };
+typedef struct kv_pair kv_pair;
+struct vvec_kv { const kv_pair* data; size_t size; };
+struct flat_map { struct vvec_kv m_map; };
+struct kvrange { const kv_pair* first; const kv_pair* second; };
+size_t ghost_lo, ghost_hi, ghost_g;
+/* std::equal_range with the by-key comparison (C++ standard; the vector is sorted by key after sort_unique): the positions whose key equals the probe's key - stated for the observed position */
+struct kvrange verif_equal_range_by_key(const struct vvec_kv* v, kv_pair probe)
+  __CPROVER_requires(__CPROVER_r_ok(v, sizeof(*v)) && ghost_lo <= ghost_hi && ghost_hi <= v->size && (ghost_g >= v->size || ((ghost_lo <= ghost_g && ghost_g < ghost_hi) == (v->data[ghost_g].key == probe.key))))
+  __CPROVER_assigns()
+  __CPROVER_ensures(__CPROVER_pointer_equals(__CPROVER_return_value.first, v->data + ghost_lo) && __CPROVER_pointer_equals(__CPROVER_return_value.second, v->data + ghost_hi));
+'''
+def fm_prelude(repo):
+    src = cx.preprocess(cx.strip_comments(open(repo + '/' + RMAP).read()))
+    # kv_pair{key} is the constructor `explicit kv_pair(const key_type key_id) : key(static_cast<TKeyInternal>(key_id)), value()`: inlined by the rewrite below - checked here
+    if not re.search(r'explicit kv_pair\(const key_type key_id\) :\s*key\(static_cast<TKeyInternal>\(key_id\)\),\s*value\(\) \{\s*\}', src):
+        raise ExtractError('flat_map::kv_pair(key) constructor changed')
+    return FM_PRELUDE
+
+
+U_fmget = Unit(RMAP, 'get', cls='flat_map', selftype='const struct flat_map', ret='struct kvrange', params=['const key_type key'],
+               pre=[(r'std::equal_range\(m_map\.begin\(\), m_map\.end\(\), kv_pair\{key\}, \[\]\(const kv_pair& lhs, const kv_pair& rhs\) \{\s*return lhs\.key < rhs\.key;\s*\}\)', 'verif_equal_range_by_key(&m_map, ((kv_pair){(TKeyInternal)(key), 0}))'),
+                    (r'std::make_pair\(m_map\.cend\(\), m_map\.cend\(\)\)', '((struct kvrange){m_map.data + m_map.size, m_map.data + m_map.size})', '?')])
+PIPELINES.append(Pipeline('U6_flat_map_get', units=[U_fmget], prelude=fm_prelude, contracts={'flat_map_get': [
+    ('pre:a sorted vector (sort_unique has run), observed at an arbitrary position; the equal range of the truncated key is given by ghosts', 'requires',
+     '__CPROVER_is_fresh(self, sizeof(*self)) && self->m_map.size <= 1000000 && __CPROVER_is_fresh(self->m_map.data, (self->m_map.size + 1) * sizeof(kv_pair)) && ghost_lo <= ghost_hi && ghost_hi <= self->m_map.size && '
+     '(ghost_g >= self->m_map.size || ((ghost_lo <= ghost_g && ghost_g < ghost_hi) == (self->m_map.data[ghost_g].key == (TKeyInternal)key)))'),
+    ('post:the range returned holds exactly the entries recorded for this id - an id that does not fit the 32-bit entries has none (no hits on the truncated id)', 'ensures',
+     'ghost_g >= self->m_map.size || ((__CPROVER_return_value.first <= self->m_map.data + ghost_g && self->m_map.data + ghost_g < __CPROVER_return_value.second) == ((key_type)self->m_map.data[ghost_g].key == key))'),
+    ('post:a range inside the vector', 'ensures', '__CPROVER_same_object(__CPROVER_return_value.first, self->m_map.data) && __CPROVER_same_object(__CPROVER_return_value.second, self->m_map.data) && __CPROVER_return_value.first <= __CPROVER_return_value.second'),
+    ('frame', 'assigns', '')]}, replace=['verif_equal_range_by_key'], enforce='flat_map_get',
+    harness='void harness(void) { const struct flat_map* m; key_type k; flat_map_get(m, k); __CPROVER_assert(0, "canary"); }', noflags=['--conversion-check'],
+    replay=('c15_idset', lambda cex, o: ['relmap']), note='the small index of RelationsMapIndex (uint64 ids, uint32 entries); relative to the std::equal_range contract'))
+
 TRUSTED = ['std::vector<std::unique_ptr<unsigned char[]>> modelled as presence flags + flat byte array (read-only units)', 'std::vector<size_t> model']
 ASSUMPTIONS = ['id set storage of at most 2^30 bytes per set in the model (object-size bound of CBMC; no loop bound depends on it)']
-NOT_DECIDED = ['relation maps (std::sort/equal_range based)', 'space reclamation by garbage collection (Buffer::purge_removed)', 'IdSetSmall']
+NOT_DECIDED = ['relation maps beyond flat_map::get (sort_unique, the 32/64-bit choice of the stash, flip)', 'space reclamation by garbage collection (Buffer::purge_removed)', 'IdSetSmall']
 LEVEL_TEXT = ('Proof for the dense id set (32- and 64-bit ids, every chunk size 2^1..2^22 at once, chunk_bits symbolic): the id -> (chunk, byte, bit) map is injective and '
               'invertible; get() equals the abstract membership; last() covers every id whose chunk exists; the iterator step next() - unbounded loop contract over '
               'arbitrary bitmap contents - never skips a member, stops only on a member or at the end, and terminates; check_and_set/unset, relative to get_element returning the byte of the id, set/clear exactly the bit of the id, '
               'leave the seven neighbours in the byte and everything else untouched (frame), keep the element count and report whether the id was new. Item stash: add_item returns a handle whose '
               'index entry is the offset at which the item was stored whether or not the automatic garbage collection runs inside the call; remove_item invalidates '
               'exactly that index entry (sentinel) and marks the item; the compaction fix-up rewrites exactly the first matching entry and leaves all others alone '
-              '(unbounded loop contract).')
+              '(unbounded loop contract). Relation maps: flat_map::get of the 32-bit index returns, relative to the std::equal_range contract, exactly the entries recorded for the id looked up - none for an id that does not fit 32 bits.')
 LEVEL_NOTE = ('Trusted: CBMC, extraction rules; the storage models (vector of chunk pointers as presence flags + flat array; std::vector<size_t> as array+size with an '
               'assumed push_back contract); Buffer operations used by ItemStash are assumed contracts here (Buffer itself: C04). Not decided: the body of get_element '
-              '(chunk vector resize and allocation; assumed contract), relation maps (std::sort/equal_range), whole-history equivalence, reclamation of space by purge_removed.')
+              '(chunk vector resize and allocation; assumed contract), std::sort/std::equal_range themselves, the other relation map operations, whole-history equivalence, reclamation of space by purge_removed.')
